@@ -33,6 +33,13 @@ type Event struct {
 	Line     int
 	Ordinal  int
 	RetsNone bool
+	Stmts    []EvStmt // assignments and assertions in written order
+}
+
+type EvStmt struct {
+	IsAssert bool
+	A        Assign
+	C        Clause
 }
 
 type GhostDecl struct {
@@ -497,13 +504,18 @@ func parseSpecFile(path string, pkgPath string, raw bool) (*SpecFile, error) {
 				} else {
 					for _, part := range splitTopLevel(tail, ';') {
 						if strings.HasPrefix(part, "assert ") {
-							ev.Asserts = append(ev.Asserts, parseClause(strings.TrimSpace(strings.TrimPrefix(part, "assert")), path, nums[i]))
+							cl := parseClause(strings.TrimSpace(strings.TrimPrefix(part, "assert")), path, nums[i])
+							ev.Asserts = append(ev.Asserts, cl)
+							ev.Stmts = append(ev.Stmts, EvStmt{IsAssert: true, C: cl})
 						} else if part != "" {
 							as, err := parseAssigns(part)
 							if err != nil {
 								return nil, fail(i, "%v", err)
 							}
 							ev.Assigns = append(ev.Assigns, as...)
+							for _, a := range as {
+								ev.Stmts = append(ev.Stmts, EvStmt{A: a})
+							}
 						}
 					}
 				}
